@@ -1,5 +1,96 @@
-import Cellml.Basic.Sexp
-/-! Channel C16 of the model driver (stub: not built yet). -/
+import Cellml.Iso.Namespace
+
+/-! Channel C16:
+    `(C16 (probes "n" ...) (ops op ...))` → `((r (store-obs ...)) ...)`, one entry per operation:
+    the outcome of the operation followed by the observation of EVERY store of the process after it.
+
+    op  = `(new)` | `(share k)` | `(base s "name")` | `(def s "name" (elem ...))`
+        | `(factor s "x" t "y")`  (cross-store `get_conversion_factor`, does not change the state)
+        | `(strip "text")`        (`_STORE_PREFIX.sub('', text)`)
+        | `(fmt s "name")`        (`format(get_unit(name))`)
+    store-obs = `(s (name defined? unit-obs) ...)`, unit-obs = `(ok scale root dims)` | `KeyError`. -/
 namespace C16
-def handle (_args : List Sexp) : Sexp := .atom "not-implemented"
+open Sexp Units Units.Wire Iso
+
+def unitObs (o : Option UnitObs) : Sexp :=
+  match o with
+  | some u => .list [.atom "ok", ofScale u.scale, ofContainer "root" u.root, ofContainer "dims" u.dims]
+  | none => .atom "KeyError"
+
+def observe (w : World) (probes : List String) : List Sexp :=
+  (List.range w.stores.length).map (fun s =>
+    .list (ofNat s :: probes.map (fun n =>
+      match probe w s n with
+      | some (d, o) => .list [.str n, ofBool d, unitObs o]
+      | none => .atom "bad-store")))
+
+def xerr : XErr → Sexp
+  | .noStore => .atom "bad-store"
+  | .crossRegistry => .list [.atom "err", .atom "CrossRegistry"]
+  | .keyError => .list [.atom "err", .atom "KeyError"]
+  | .unit .dimensionality => .list [.atom "err", .atom "DimensionalityError"]
+  | .unit .undefinedUnit => .list [.atom "err", .atom "UndefinedUnitError"]
+  | .unit .valueError => .list [.atom "err", .atom "ValueError"]
+  | .unit (.other w) => .list [.atom "err", .atom "Other", .str w]
+
+/-- the state-changing operations go through `Iso.step`; the reply is read off the state change -/
+def applyOp (w : World) : Sexp → World × Sexp
+  | .list [.atom "new"] => (step w (.newStore none), .atom "ok")
+  | .list [.atom "share", k] => (step w (.newStore (nat? k)), .atom "ok")
+  | .list [.atom "base", s, n] =>
+      match nat? s, atomOf? n with
+      | some s, some name =>
+          -- outcome from the same function `step` uses
+          match w.regOf s with
+          | some (st, _, reg) =>
+              match addBaseUnit reg st name with
+              | .ok _ => (step w (.addBase s name), .atom "ok")
+              | .error e => (step w (.addBase s name), addErrSexp e)
+          | none => (w, .atom "bad-store")
+      | _, _ => (w, .atom "bad-op")
+  | .list [.atom "def", s, n, es] =>
+      match nat? s, atomOf? n, elems? es with
+      | some s, some name, some elems =>
+          match w.regOf s with
+          | some (st, _, reg) =>
+              match addUnit reg st name elems with
+              | .ok _ => (step w (.addUnit s name elems), .atom "ok")
+              | .error e => (step w (.addUnit s name elems), addErrSexp e)
+          | none => (w, .atom "bad-store")
+      | _, _, _ => (w, .atom "bad-op")
+  | .list [.atom "factor", s, x, t, y] =>
+      match nat? s, atomOf? x, nat? t, atomOf? y with
+      | some s, some x, some t, some y =>
+          match crossFactor w s x t y with
+          | .ok f => (w, if PMap.norm f = [] then .list [.atom "ok", .atom "one"] else .list [.atom "ok", ofScale f])
+          | .error e => (w, xerr e)
+      | _, _, _, _ => (w, .atom "bad-op")
+  | .list [.atom "strip", t] =>
+      match atomOf? t with
+      | some t => (w, .str (strip t))
+      | none => (w, .atom "bad-op")
+  | .list [.atom "fmt", s, n] =>
+      match nat? s, atomOf? n with
+      | some s, some name =>
+          match w.regOf s with
+          | some (st, _, _) =>
+              match getUnit st name with
+              | .ok _ => (w, .str (formatName st.id name))
+              | .error _ => (w, .list [.atom "err", .atom "KeyError"])
+          | none => (w, .atom "bad-store")
+      | _, _ => (w, .atom "bad-op")
+  | _ => (w, .atom "bad-op")
+
+def runOps (probes : List String) (w : World) : List Sexp → List Sexp
+  | [] => []
+  | op :: ops =>
+      let (w', r) := applyOp w op
+      .list [r, .list (observe w' probes)] :: runOps probes w' ops
+
+def handle (args : List Sexp) : Sexp :=
+  match args with
+  | [.list (.atom "probes" :: ps), .list (.atom "ops" :: ops)] =>
+      .list (runOps (ps.filterMap atomOf?) {} ops)
+  | _ => .atom "bad-request"
+
 end C16
